@@ -18,7 +18,10 @@ Scn == [signResp : BOOLEAN, signAssert : BOOLEAN, enc : BOOLEAN, alg : Algs, bin
         sessionExpiry : BOOLEAN, vclass : ValueClasses, unknownAttr : BOOLEAN,
         skew : {0, 180},
         \* authentication context the IdP was asked to state: a class with or without an authenticating authority
-        authnCtx : {"password_authority", "tls_plain", "nonascii_authority"}]            \* the SP's accepted_time_diff: widens acceptance, never what is reported
+        authnCtx : {"password_authority", "tls_plain", "nonascii_authority"},
+        \* the IdP's policy: everything in the "default" entry, or additionally an entry for this SP that sets something
+        \* else (so lifetime and name format still come from "default")
+        idpPolicy : {"defaultOnly", "perSPpartial"}]            \* the SP's accepted_time_diff: widens acceptance, never what is reported
 
 \* what the built response carries (Entity._response): with encryption the assertion signature is made
 \* before encrypting and lives inside the cipher text
@@ -32,6 +35,8 @@ WellFormed(s) == /\ Satisfies(s)
                  /\ (s.vclass # "plain" => ~s.wantEither /\ s.nameid = "transient" /\ s.alg = "sha256" /\ ~s.unknownAttr)
                  /\ (s.unknownAttr => s.binding = "post" /\ ~s.enc)
                  /\ (s.authnCtx # "password_authority" => s.vclass = "plain" /\ ~s.wantEither /\ s.alg = "sha256" /\ ~s.unknownAttr /\ s.skew = 0)
+                 /\ (s.idpPolicy # "defaultOnly" => s.vclass = "plain" /\ ~s.wantEither /\ s.alg = "sha256" /\ ~s.unknownAttr /\ s.skew = 0
+                                                    /\ s.authnCtx = "password_authority")
                  /\ (s.skew # 0 => s.vclass = "plain" /\ ~s.wantEither /\ s.alg = "sha256" /\ s.nameid = "transient" /\ ~s.unknownAttr)
 
 VARIABLES scn, pc
